@@ -2,7 +2,11 @@ import GscribModel.Model.Proto
 import GscribModel.Model.DirectWrite
 /-! Driver mode `directwrite` (stateful; `reset` starts a new case).
 
-    cfg writes=<n> disc=<0|1>      caller's plan: n statements, then (disc=1) disconnect(wait=True)
+    cfg writes=<n> disc=<0|1> [gated=<0|1>]
+                                   caller's plan: n statements, then (disc=1) disconnect(wait=True); gated=1: the
+                                   caller starts each write()/disconnect() only when told to (`W`)
+    W                              the caller may start its next call
+    X <o|b>                        the device pushes a line that is nobody's terminal reply: surplus ok / error line
     start                          the reader thread sends the first probe
     P                              15 empty reads: another probe (no-op once online)
     D <pre> <o|b>                  device consumes the oldest unread command; <pre> is `-` or a word over
@@ -11,7 +15,7 @@ import GscribModel.Model.DirectWrite
     L                              read error / end of stream
     settle                         (no device action)
     act <name> [<pre> <o|b>]       exactly one transition, no settling; `disabled` if not enabled
-  `start P D R L settle` are total (no-op when not applicable) and are followed by `settle`:
+  `start P D R L X W settle` are total (no-op when not applicable) and are followed by `settle`:
   the host threads run until all of them block.  One record per line. -/
 open GscribModel GscribModel.Proto
 namespace GscribModel.DirectWriteDrv
@@ -22,6 +26,7 @@ def showCmd : Cmd → String
 
 def showReply : Reply → String
   | .status => "s" | .temp => "t" | .ok c => "o:" ++ showCmd c | .bad c => "b:" ++ showCmd c
+  | .xok => "xo" | .xbad => "xb"
 
 def showB (b : Bool) : String := if b then "1" else "0"
 
@@ -40,7 +45,8 @@ def record (s : St) (noop : Bool) : String :=
   s!"priq={showList (s.priq.map showCmd)} | tx={showList ((s.devLog ++ s.toDev).map showCmd)} " ++
   s!"| unread={s.toDev.length} wire={showList (s.toHost.map showReply)} " ++
   s!"| out={showList (s.outcomes.map fun p => s!"{p.1}:{if p.2 then "E" else "r"}")} " ++
-  s!"| backlog={showB s.backlog} probes={s.probes} draise={showB s.discRaised}"
+  s!"| backlog={showB s.backlog} probes={s.probes} draise={showB s.discRaised} " ++
+  s!"surplus={showB s.surplusHit} due={showB s.dueErr}"
 
 def parsePre (w : String) : Option (List Bool) :=
   if w = "-" then some [] else
@@ -55,6 +61,7 @@ def parseAct (ws : List String) : Option Act :=
   | ["conline"] => some .cOnline | ["psendnext"] => some .pSendnext | ["cpoll"] => some .cPoll
   | ["cdisc"] => some .cDisc | ["wclear"] => some .wClear | ["wenq"] => some .wEnq
   | ["wwake"] => some .wWake | ["wfinish"] => some .wFinish | ["ssend"] => some .sSend
+  | ["dpush", t] => (parseTerm t).map .dPush
   | ["dprocess", p, t] => do
       let pre ← parsePre p
       let e ← parseTerm t
@@ -68,15 +75,15 @@ def fuel : Nat := 400
 /-- a total op: the action if enabled, then the host threads run until they block -/
 def total (d : DS) (a : Act) : DS × String :=
   let (s1, did) := tryAct d.1 a
-  let s2 := settle d.2 fuel s1
-  ((s2, d.2), record s2 (!did))
+  let r := settle fuel d.2 s1
+  (r, record r.1 (!did))
 
 def stepDrv (d : DS) (line : String) : DS × String :=
   match words line with
   | "cfg" :: rest =>
       match (field rest "writes").bind (·.toNat?), field rest "disc" with
       | some n, some dd =>
-          let cfg : Cfg := { nwrites := n, disc := dd = "1" }
+          let cfg : Cfg := { nwrites := n, disc := dd = "1", gated := field rest "gated" = some "1" }
           ((d.1, cfg), record d.1 false)
       | _, _ => (d, "bad-op " ++ line)
   | ["start"] => total d .lProbe
@@ -87,9 +94,16 @@ def stepDrv (d : DS) (line : String) : DS × String :=
       match parsePre p, parseTerm t with
       | some pre, some e => total d (.dProcess pre e)
       | _, _ => (d, "bad-op " ++ line)
+  | ["X", t] =>
+      match parseTerm t with
+      | some e => total d (.dPush e)
+      | none => (d, "bad-op " ++ line)
+  | ["W"] =>
+      let r := settle fuel { d.2 with permits := d.2.permits + 1 } d.1
+      (r, record r.1 false)
   | ["settle"] =>
-      let s2 := settle d.2 fuel d.1
-      ((s2, d.2), record s2 false)
+      let r := settle fuel d.2 d.1
+      (r, record r.1 false)
   | "act" :: rest =>
       match parseAct rest with
       | some a =>
